@@ -303,7 +303,7 @@ CHECKS = {
             {'fn': P + 'x/feemarket/keeper.H_C09_3_EndBlock'},
         ],
         'level_text': 'The engine treats every panic not observed by the harness as a failure; this check runs the harnesses whose panics would be fatal or user-triggerable: (1) arbitrary call data of 0-6 symbolic bytes (optionally with a known selector) to the ERC-20 and staking precompiles through the fork\'s real Call/StaticCall -> RunPrecompiledContract -> RunCustom -> the repo\'s wrapper, with symbolic gas: never a panic; (2) a block of two Ethereum transactions of 8 outcome classes followed by the real x/evm EndBlock: never a panic, every admitted transaction has a receipt, a failure in one transaction leaves the bookkeeping of the next consistent; (3) the fee market EndBlock for every base fee, minimum gas price, consensus MaxGas >= -1 and gas used; (4) the real x/evm BeginBlock (chain id, block-hash ring: store, prune exactly height-256, idempotent) and the BLOCKHASH function at every height: never a panic; (5) the JSON-RPC event bus (rpc/ethereum/pubsub) with its publisher goroutine, a producer closing the topic source, consumer goroutines of the shape used by filters/api.go and concurrent subscribe / unsubscribe / RemoveTopic, executed under the engine\'s delay-bounded scheduler: every schedule within the delay bound is a path; no goroutine panics (double close, send on closed channel), no deadlock, consumers terminate, the topic disappears, a re-registered topic keeps its subscribers; (6) the real filter event system (NewEventSystem with eventLoop and consumeEvents, SubscribeNewHeads, Subscription.Unsubscribe, over the real event bus) with CometBFT events arriving on the websocket response channel while a block filter is uninstalled and another one installed: no goroutine panics, no deadlock, the uninstalled consumer terminates; (7) the real PublicFilterAPI (NewPublicAPI with its timeout loop, NewBlockFilter with its real consumer goroutine, GetFilterChanges, UninstallFilter) with each JSON-RPC request in its own goroutine and a header event arriving: no panic, no deadlock, every request returns, an uninstalled filter is gone.',
-        'level_note': 'Narrow claim. Decoding of arbitrary transaction bytes (protobuf / RLP / ABI by reflection) and gRPC query argument decoding are outside the engine. Concurrency: the event bus and the filter event system are encoded (H_C20_6 uses a consumer of the shape of api.go's goroutines, H_C20_7 the real block-filter API; log / pending-transaction filters, websocket subscriptions and the websocket server are outside); the scheduler interleaves at synchronisation operations (go, channel operations, select, Mutex / RWMutex / WaitGroup operations, goroutine exit), which is exhaustive for data-race-free executions - data races themselves (unsynchronised map access) are not detected; timers never fire (time-outs are not taken), the CometBFT websocket client is a stub whose Subscribe / Unsubscribe succeed. Schedule counterexamples are engine-level (the decision list in the replay file is the schedule); the Go scheduler cannot be forced natively.',
+        'level_note': 'Narrow claim. Decoding of arbitrary transaction bytes (protobuf / RLP / ABI by reflection) and gRPC query argument decoding are outside the engine. Concurrency: the event bus and the filter event system are encoded (H_C20_6 uses a consumer of the shape of the goroutines in api.go, H_C20_7 the real block-filter API; log / pending-transaction filters, websocket subscriptions and the websocket server are outside); the scheduler interleaves at synchronisation operations (go, channel operations, select, Mutex / RWMutex / WaitGroup operations, goroutine exit), which is exhaustive for data-race-free executions - data races themselves (unsynchronised map access) are not detected; timers never fire (time-outs are not taken), the CometBFT websocket client is a stub whose Subscribe / Unsubscribe succeed. Schedule counterexamples are engine-level (the decision list in the replay file is the schedule); the Go scheduler cannot be forced natively.',
         'bounds': ['(1) input length 0..6 symbolic bytes, 2 contracts, symbolic gas, CALL / STATICCALL', '(2) as C13 quick', '(3) as C09', '(5) event bus: 1 topic, 1 producer with 0-2 events, 2 consumers (one leaving early), main removing the topic / subscribing again / idle; delay bound 3 w.r.t. the deterministic round-robin non-preemptive scheduler (thorough: 4; 5 with one consumer and 0-1 events); topic re-registration: delay bound 4; at most 16 goroutines', '(6) event system: 1 event (thorough 2), first subscription uninstalled, second installed meanwhile; delay bound 3 (thorough 4)', '(7) filter API: 2 block filters, 1 header event, poll and uninstall of the first, 4 concurrent requests; delay bound 2 (thorough 3; bound 4 = 4.6 million schedules was run once, clean)', '(4) x/evm begin blocker: one inductive step at a symbolic height in [1, 2^62) from any state satisfying the block-hash ring invariant (one arbitrary older entry, present or absent), fixed non-zero header hash, BLOCKHASH for an arbitrary other height'],
         'outside': ['byte-level decoders', 'log / pending-transaction filters and websocket subscriptions of the filter API, filter time-outs (timers never fire), websocket server; data races; schedules beyond the delay bound', 'begin/end blockers of the Cosmos SDK modules (staking, distribution, ...)'],
         'assumptions': TX_ASSUMPTIONS,
